@@ -35,7 +35,7 @@ Definition cksum (d : list N) : N :=
 (** operations and observations with pool indices *)
 Inductive iop :=
 | IAdd (p e : nat) (m : list (nat * nat)) | IRemove (p : nat) | ILookup (p : nat) | IHas (p : nat)
-| IStore | IReload.
+| IStore | IStoreCb (budget : N) | IReload.
 
 Inductive icobs :=
 | YOk                                       (* nil error (Add, Remove, Reload) *)
@@ -58,7 +58,7 @@ Definition gm (m : list (nat * nat)) : meta := map (fun kv => (g (fst kv), g (sn
 Definition op_of (o : iop) : op :=
   match o with
   | IAdd p e m => OAdd (g p) (g e) (gm m) | IRemove p => ORemove (g p) | ILookup p => OLookup (g p)
-  | IHas p => OHasPrefix (g p) | IStore => OStore | IReload => OReload
+  | IHas p => OHasPrefix (g p) | IStore => OStore | IStoreCb b => OStoreCb b | IReload => OReload
   end.
 Definition cobs_of (o : icobs) : cobs :=
   match o with
